@@ -48,9 +48,13 @@ pub enum HFault {
     StreamKey { rev: usize, num: u32, key: String, text: String },
 }
 
-const PAYLOADS: [&str; 42] = [
+const PAYLOADS: [&str; 49] = [
     // expanded when applied: 150 000 '%' without a line end; 150 000 '(' (unbalanced string)
     "@percent_run", "@paren_run",
+    // 100 000 line continuations inside one string
+    "@backslash_newline_run",
+    // inline images without data
+    "BI /W 2 /H 2 /BPC 8 /CS /G ID\nEI", "BI ID\nEI", "BI /W 1 /H 1 ID\r\nEI", "BI /W 1 /H 1 /BPC 8 /CS /G ID EI", "BI /W 1 /H 1 ID\nEI Q", "q BI /W 0 /H 0 ID\nEI",
     // PostScript calculator programs
     "{ 5 1 roll }", "{ 1 5 roll }", "{ 2 -2147483648 roll }", "{ 0 0 roll }", "{ 3 index }", "{ -1 index }", "}{", "{", "{ 1e39 1e39 mul 1 roll }",
     "{ 2147483647 2147483647 roll }", "{ dup dup dup dup roll }", "{ pop pop pop }", "{ 1 0 roll 0 index }", "{ 2 1e39 roll }",
@@ -78,6 +82,14 @@ fn site_from(j: &J) -> Option<Site> {
     })
 }
 impl HFault {
+    /// the object the fault is planted in (None: the cross-reference section / trailer)
+    pub fn obj_num(&self) -> Option<u32> {
+        match self {
+            HFault::Retarget { site, .. } | HFault::Boundary { site, .. } | HFault::Nest { site, .. } | HFault::DropKey { site } => Some(site.num),
+            HFault::LenRef { num, .. } | HFault::Payload { num, .. } | HFault::StreamKey { num, .. } => Some(*num),
+            HFault::Override { .. } => None,
+        }
+    }
     pub fn kind(&self) -> &'static str {
         match self {
             HFault::Retarget { .. } => "retarget",
@@ -194,6 +206,12 @@ fn drop_at(v: &mut Val, path: &[PathElem]) -> bool {
 
 /// every single fault of a template
 pub fn single_faults(spec: &DocSpec) -> Vec<HFault> {
+    single_faults_near(spec, u32::MAX)
+}
+
+/// `first`: for templates with thousands of objects that all look alike, faults are planted in
+/// objects 1..=first only and references are aimed at those and at the last three objects.
+pub fn single_faults_near(spec: &DocSpec, first: u32) -> Vec<HFault> {
     let mut out = vec![];
     let mut all_nums: Vec<u32> = vec![];
     for r in &spec.revisions {
@@ -211,11 +229,15 @@ pub fn single_faults(spec: &DocSpec) -> Vec<HFault> {
     all_nums.sort();
     // one number that no section defines, and the free head
     let undefined = all_nums.last().cloned().unwrap_or(0) + 7;
-    let mut targets = all_nums.clone();
+    let last = all_nums.last().cloned().unwrap_or(0);
+    let mut targets: Vec<u32> = all_nums.iter().cloned().filter(|&n| n <= first || n + 3 > last).collect();
     targets.push(0);
     targets.push(undefined);
     for (ri, r) in spec.revisions.iter().enumerate() {
         for (&num, slot) in &r.slots {
+            if num > first {
+                continue;
+            }
             // the whole object replaced by a reference (an indirect object may itself be a reference):
             // to itself, to every other object, to object 0 and to an undefined number
             if matches!(slot, Slot::Direct { body: Body::Plain(_), .. } | Slot::Compressed { .. }) {
@@ -251,7 +273,7 @@ pub fn single_faults(spec: &DocSpec) -> Vec<HFault> {
                 let many = format!("[{}]", "/ASCIIHexDecode ".repeat(1000));
                 for (k, t) in [("Filter", many.as_str()), ("Filter", "[/FlateDecode /FlateDecode /LZWDecode /RunLengthDecode /ASCII85Decode]"), ("Filter", "[]"), ("Filter", "/Crypt"), ("Filter", "/JBIG2Decode"), ("Filter", "/JPXDecode"),
                     ("DecodeParms", "[null null null]"), ("DecodeParms", "[<< /Predictor 15 /Columns 0 >>]"), ("DecodeParms", "<< /Predictor 2 /Colors 0 /BitsPerComponent 0 /Columns 0 >>"), ("DecodeParms", "<< /K -1 /Columns 65535 /Rows 65535 >>"),
-                    ("DecodeParms", "<< /JBIG2Globals 1 0 R >>"), ("F", "<< /EF << /F 1 0 R >> >>"), ("FFilter", "/FlateDecode")] {
+                    ("DecodeParms", "<< /JBIG2Globals 1 0 R >>"), ("DecodeParms", "<< /JBIG2Globals @self 0 R >>"), ("@jbig2", "<< /JBIG2Globals @self 0 R >>"), ("F", "<< /EF << /F 1 0 R >> >>"), ("FFilter", "/FlateDecode")] {
                     out.push(HFault::StreamKey { rev: ri, num, key: k.into(), text: t.to_string() });
                 }
             }
@@ -340,14 +362,30 @@ pub fn apply(spec: &DocSpec, faults: &[HFault]) -> DocSpec {
                     *d = match &data[..] {
                         b"@percent_run" => vec![b'%'; 150_000],
                         b"@paren_run" => vec![b'('; 150_000],
+                        b"@backslash_newline_run" => {
+                            let mut v = b"(".to_vec();
+                            for _ in 0..100_000 {
+                                v.extend_from_slice(b"\\\n");
+                            }
+                            v.extend_from_slice(b") Tj");
+                            v
+                        }
                         _ => data.clone(),
                     };
                 }
             }
             HFault::StreamKey { rev, num, key, text } => {
                 if let Some(Slot::Direct { body: Body::Stream { dict, .. }, .. }) = s.revisions.get_mut(*rev).and_then(|r| r.slots.get_mut(num)) {
-                    dict.retain(|(k, _)| k != key);
-                    dict.push((key.clone(), Val::Raw(text.clone())));
+                    let text = text.replace("@self", &num.to_string());
+                    if key == "@jbig2" {
+                        // a JBIG2 image stream whose globals are the stream itself
+                        dict.retain(|(k, _)| k != "Filter" && k != "DecodeParms");
+                        dict.push(("Filter".into(), Val::name("JBIG2Decode")));
+                        dict.push(("DecodeParms".into(), Val::Raw(text)));
+                    } else {
+                        dict.retain(|(k, _)| k != key);
+                        dict.push((key.clone(), Val::Raw(text)));
+                    }
                 }
             }
             HFault::DropKey { site } => {
@@ -398,7 +436,8 @@ impl C14 {
                 std::process::exit(2);
             }
         }
-        let singles: Vec<Vec<HFault>> = t.iter().map(|(_, s)| single_faults(s)).collect();
+        // 3000 objects that all look alike: faults are planted in the first few only
+        let singles: Vec<Vec<HFault>> = t.iter().map(|(name, s)| if *name == "long_chain" { single_faults_near(s, 8) } else { single_faults(s) }).collect();
         // both tiers enumerate the complete single-fault space of every template; the tiers differ in the
         // number of seeded multi-fault cases
         let enum_templates = t.len();
@@ -434,7 +473,11 @@ impl C14 {
             (idx, Case { template: self.templates[idx].0.to_string(), faults: vec![f], cfg: WalkCfg { tolerant: c.0, cached: c.1, stack: c.2 }, junk })
         } else {
             let mut rng = Rng::new(run_seed(ctx.verif_seed, "C14", i - self.enum_total));
-            let idx = rng.usize(self.templates.len());
+            let mut idx = rng.usize(self.templates.len());
+            // the 3000-object template is expensive to walk: a smaller share
+            if self.templates[idx].0 == "long_chain" && !rng.chance(1, 8) {
+                idx = rng.usize(self.templates.len());
+            }
             let k = 2 + rng.usize(2);
             let faults = (0..k).map(|_| self.singles[idx][rng.usize(self.singles[idx].len())].clone()).collect();
             let c = CONFIGS[rng.usize(CONFIGS.len())];
